@@ -68,8 +68,8 @@ Theorem C08_saltelli_formula :
 Proof. exact saltelli_formula. Qed.
 Print Assumptions C08_saltelli_formula.
 
-(* Homma-Saltelli and Saltelli are the same number whenever the variance estimate is not 0 *)
-Theorem C08_homma_eq_saltelli : forall ya yc, Vhat ya <> 0 -> homma_spec ya yc = saltelli_spec ya yc.
+(* Homma-Saltelli and Saltelli are the same number whenever the variance is not 0 *)
+Theorem C08_homma_eq_saltelli : forall ya yc, Vpop ya <> 0 -> homma_spec ya yc = saltelli_spec ya yc.
 Proof. exact homma_eq_saltelli. Qed.
 Print Assumptions C08_homma_eq_saltelli.
 
@@ -127,6 +127,67 @@ Theorem C08_jansen_affine :
     jansen (map (fun y => a * y + b) (ya ++ yb ++ concat ycs)) n d = jansen (ya ++ yb ++ concat ycs) n d.
 Proof. exact jansen_model_affine. Qed.
 Print Assumptions C08_jansen_affine.
+
+(* ---- Homma, Saltelli, Janon, Glen (current code): exactly 0 on an inert dimension (f(C_i) = f(A), Var > 0) ---- *)
+Theorem C08_homma_zero_inert :
+  forall ya yb ycs n d i, length ya = n -> length yb = n -> length ycs = d -> (forall c, In c ycs -> length c = n) ->
+    (i < d)%nat -> nth i ycs [] = ya -> 0 < Vpop ya -> nthq (homma (ya ++ yb ++ concat ycs) n d) i = 0.
+Proof. exact homma_model_zero_inert. Qed.
+Print Assumptions C08_homma_zero_inert.
+
+Theorem C08_saltelli_zero_inert :
+  forall ya yb ycs n d i, length ya = n -> length yb = n -> length ycs = d -> (forall c, In c ycs -> length c = n) ->
+    (i < d)%nat -> nth i ycs [] = ya -> 0 < Vpop ya -> nthq (saltelli (ya ++ yb ++ concat ycs) n d) i = 0.
+Proof. exact saltelli_model_zero_inert. Qed.
+Print Assumptions C08_saltelli_zero_inert.
+
+Theorem C08_janon_zero_inert :
+  forall ya yb ycs n d i, length ya = n -> length yb = n -> length ycs = d -> (forall c, In c ycs -> length c = n) ->
+    (i < d)%nat -> nth i ycs [] = ya -> 0 < Vpop ya -> nthq (janon (ya ++ yb ++ concat ycs) n d) i = 0.
+Proof. exact janon_model_zero_inert. Qed.
+Print Assumptions C08_janon_zero_inert.
+
+(* Glen: for every function used as square root that returns v on v * v, v >= 0 *)
+Theorem C08_glen_zero_inert :
+  forall ya yb ycs n d i, length ya = n -> length yb = n -> length ycs = d -> (forall c, In c ycs -> length c = n) ->
+    (i < d)%nat -> nth i ycs [] = ya -> 0 < Vpop ya ->
+    forall sqrt : Qc -> Qc, (forall v, 0 <= v -> sqrt (v * v) = v) ->
+    nthq (glen sqrt (ya ++ yb ++ concat ycs) n d) i = 0.
+Proof. exact glen_model_zero_inert. Qed.
+Print Assumptions C08_glen_zero_inert.
+
+(* records of the defects (code before the fixes in /repo): the transcriptions [homma_orig], [saltelli_orig]
+   (unbiased variance) and [glen_orig] (covariance / (n-1)) compute their own formulas ... *)
+Theorem C08_orig_formulas :
+  forall ya yb ycs n d, length ya = n -> length yb = n -> length ycs = d -> (forall c, In c ycs -> length c = n) ->
+    homma_orig (ya ++ yb ++ concat ycs) n d = map (homma_orig_spec ya) ycs /\
+    saltelli_orig (ya ++ yb ++ concat ycs) n d = map (saltelli_orig_spec ya) ycs /\
+    forall sqrt, glen_orig sqrt (ya ++ yb ++ concat ycs) n d = map (glen_orig_spec sqrt ya) ycs.
+Proof.
+  intros; repeat split; [apply homma_orig_formula | apply saltelli_orig_formula | intro; apply glen_orig_formula];
+    assumption.
+Qed.
+Print Assumptions C08_orig_formulas.
+
+(* ... and did NOT give 0 on an inert dimension: f(A) = f(C_0) = [0; 1] gets 1/2 (= 1/n), resp. -1 (= -1/(n-1)) *)
+Theorem C08_homma_zero_inert_refuted_orig :
+  exists ya yb, length ya = 2%nat /\ length yb = 2%nat /\ 0 < Vhat ya /\
+    nthq (homma_orig (ya ++ yb ++ concat [ya]) 2 1) 0 = half.
+Proof. exact homma_zero_inert_refuted_orig. Qed.
+Print Assumptions C08_homma_zero_inert_refuted_orig.
+
+Theorem C08_saltelli_zero_inert_refuted_orig :
+  exists ya yb, length ya = 2%nat /\ length yb = 2%nat /\ 0 < Vhat ya /\
+    nthq (saltelli_orig (ya ++ yb ++ concat [ya]) 2 1) 0 = half.
+Proof. exact saltelli_zero_inert_refuted_orig. Qed.
+Print Assumptions C08_saltelli_zero_inert_refuted_orig.
+
+Theorem C08_glen_zero_inert_refuted_orig :
+  exists (sqrt : Qc -> Qc) ya yb, length ya = 2%nat /\ length yb = 2%nat /\ 0 < Vpop ya /\
+    is_sqrt sqrt (Vpop ya * Vpop ya) /\ sqrt (Vpop ya * Vpop ya) = Vpop ya /\
+    nthq (glen_orig sqrt (ya ++ yb ++ concat [ya]) 2 1) 0 = - (1).
+Proof. exact glen_zero_inert_refuted_orig. Qed.
+Print Assumptions C08_glen_zero_inert_refuted_orig.
 
 (* ---- attribution maps = estimator of the scores of the perturbed inputs, for every forward batch size (None = all masks at once) ---- *)
 Theorem C08_gsa_map_is_estimator :
